@@ -18,6 +18,9 @@ type typeFormatter struct {
 	config        Config
 	packageMapper func(pkg string, class string) string
 	context       languages.Context
+
+	// references to maps and arrays being expanded: these types can be recursive (`A: [...A]`)
+	expanding map[string]struct{}
 }
 
 func createFormatter(ctx languages.Context, config Config) *typeFormatter {
@@ -77,9 +80,22 @@ func (tf *typeFormatter) formatReference(def ast.RefType) string {
 	switch object.Type.Kind {
 	case ast.KindScalar:
 		return formatScalarType(object.Type.AsScalar())
-	case ast.KindMap:
-		return tf.formatMap(object.Type.AsMap())
-	case ast.KindArray:
+	case ast.KindMap, ast.KindArray:
+		if tf.expanding == nil {
+			tf.expanding = make(map[string]struct{})
+		}
+		if _, found := tf.expanding[def.String()]; found {
+			// recursive definition: it has no finite expansion
+			return "Object"
+		}
+
+		tf.expanding[def.String()] = struct{}{}
+		defer delete(tf.expanding, def.String())
+
+		if object.Type.IsMap() {
+			return tf.formatMap(object.Type.AsMap())
+		}
+
 		return tf.formatArray(object.Type.AsArray())
 	default:
 		tf.packageMapper(def.ReferredPkg, def.ReferredType)
